@@ -441,6 +441,9 @@ fn check_c30(spec: &Value, rec: &Value, stats: Option<&mut C30Stats>) -> Vec<Fin
         if op["t"] != "req" {
             continue;
         }
+        if !rec["child_died"].is_null() {
+            break; // the run's process died without a record: nothing is known about earlier responses
+        }
         if let Some(c) = crashed_at {
             if i >= c {
                 continue; // not handled (the crash itself was reported above)
